@@ -212,6 +212,7 @@ type FuncCtx struct {
 	s0       *State
 	rets     []retSite
 	defers   []deferRec
+	nskolem  int
 	loops    map[*ssa.BasicBlock]*loopInfo
 	loopOrd  []*loopInfo
 	closures map[ssa.Value]*ssa.MakeClosure
